@@ -94,6 +94,14 @@ def convert_entry(entry):
                     out["errors"].append(_err(str(r.title), e2))
         for r, e in backend.errors:
             out["errors"].append(_err(str(r.title), e))
+        # serialisation of the converted rules: its error records name detection items
+        for r in coll.rules:
+            try:
+                r.to_dict()
+            except BaseException as e:  # noqa
+                if isinstance(e, (KeyboardInterrupt, SystemExit, MemoryError)):
+                    raise
+                out["errors"].append(_err("<to_dict> " + str(r.title), e))
         for r in coll.rules:
             det = getattr(r, "detection", None)
             if det is not None:
